@@ -113,13 +113,55 @@ fn show(n: &N) -> serde_json::Value {
     json!({"id": crate::bencode::hex(&n.0), "addr": n.1.to_string(), "secure": secure(n)})
 }
 
-pub fn check_table(r: &mut Report, rng: &mut Rng, uni: &[N], feat: u64, targets: &[[u8; 20]], case_id: u64) {
+pub fn check_table(r: &mut Report, rng: &mut Rng, uni: &[N], feat: u64, targets: &[[u8; 20]], case_id: u64, clock: Option<&super::c12::Clock>) {
     let table_id: [u8; 20] = rng.array();
     let mut table = RoutingTable::new(Id::from(table_id));
     for n in uni {
         table.add(Node::new(Id::from(n.0), n.1));
     }
-    let members: Vec<N> = table.nodes().map(|n| to_n(&n)).collect();
+    // a lived-in table: members removed (whole buckets emptied), 16+ minutes pass, some members are
+    // refreshed and new nodes arrive (stale heads of full buckets are evicted), before it is asked
+    let mut churned = false;
+    if rng.chance(1, 2) && !uni.is_empty() {
+        churned = true;
+        let snap = dht::verif::table_snapshot(&table);
+        for _ in 0..rng.usize(3) {
+            if let Some((_, ids)) = snap.buckets.get(rng.usize(snap.buckets.len().max(1))) {
+                for id in ids {
+                    table.remove(id);
+                }
+                r.count("buckets_emptied");
+            }
+        }
+        for _ in 0..rng.usize(4) {
+            table.remove(&Id::from(rng.pick(uni).0));
+        }
+        if rng.bool() {
+            if let Some(c) = clock {
+                c.0.fetch_add((16 + rng.below(10)) * 60 * 1_000_000_000, std::sync::atomic::Ordering::SeqCst);
+                r.count("tables_aged_past_staleness");
+            }
+            // refresh members from the tail of the insertion order, then newcomers
+            for n in uni.iter().rev().take(rng.usize(uni.len() + 1)) {
+                table.add(Node::new(Id::from(n.0), n.1));
+            }
+            for _ in 0..rng.usize(30) {
+                let mut id: [u8; 20] = rng.array();
+                if let Some(m) = uni.first() {
+                    // same bucket as an existing member more often than not
+                    id[..2].copy_from_slice(&m.0[..2]);
+                }
+                table.add(Node::new(Id::from(id), SocketAddrV4::new(pub_ip(rng), 6881)));
+            }
+        }
+        r.count("churned_tables");
+    }
+    // ground truth read bucket by bucket through the hook, not through the table's own iterator
+    let members: Vec<N> = dht::verif::table_snapshot(&table).bucket_nodes.iter().map(|n| (*n.0.as_bytes(), n.1)).collect();
+    let iterated: Vec<N> = table.nodes().map(|n| to_n(&n)).collect();
+    if iterated != members {
+        r.violation("table/iteration-differs-from-buckets", "RoutingTable::nodes() does not walk exactly the nodes held in the buckets", json!({"class":"table","case":case_id,"table_id":crate::bencode::hex(&table_id),"churned":churned,"universe": uni.iter().map(show).collect::<Vec<_>>()}), json!({"iterated": iterated.len(), "in_buckets": members.len()}));
+    }
     let mut targets: Vec<[u8; 20]> = targets.to_vec();
     targets.push(table_id);
     if let Some(m) = members.first() {
@@ -309,6 +351,11 @@ pub fn run(a: &Args) -> Report {
     let threads = a.threads.max(1);
     let cases: u64 = if quick { 6_000 } else { 200_000 };
     let mut total = Report::new("C11");
+    // a process-global virtual clock that only moves forward (any thread may advance it: the oracle does
+    // not depend on time, only the table's eviction decisions do)
+    let clock_arc = std::sync::Arc::new(super::c12::Clock(std::sync::atomic::AtomicU64::new(1_000_000_000)));
+    dht::verif::set_env(Some(clock_arc.clone()));
+    let clock: &super::c12::Clock = &clock_arc;
     let parts: Vec<Report> = std::thread::scope(|s| {
         let hs: Vec<_> = (0..threads)
             .map(|tid| {
@@ -330,16 +377,22 @@ pub fn run(a: &Args) -> Report {
                         if uni.len() <= 5 && uni.len() >= 2 {
                             // every insertion order
                             for p in permutations(&uni) {
-                                check_table(&mut r, &mut rng, &p, feat, &targets[..1], case_id);
-                                check_accumulator(&mut r, &mut rng, &p, feat, &target, case_id);
+                                let case = json!({"class":"table-or-accumulator","case":case_id,"universe": p.iter().map(show).collect::<Vec<_>>()});
+                                super::guarded(&mut r, case, |r| {
+                                    check_table(r, &mut rng, &p, feat, &targets[..1], case_id, Some(clock));
+                                    check_accumulator(r, &mut rng, &p, feat, &target, case_id);
+                                });
                                 r.count("permutation_orders");
                             }
                         } else {
                             let mut u = uni.clone();
                             for _ in 0..2 {
                                 rng.shuffle(&mut u);
-                                check_table(&mut r, &mut rng, &u, feat, &targets, case_id);
-                                check_accumulator(&mut r, &mut rng, &u, feat, &target, case_id);
+                                let case = json!({"class":"table-or-accumulator","case":case_id,"universe": u.iter().map(show).collect::<Vec<_>>()});
+                                super::guarded(&mut r, case, |r| {
+                                    check_table(r, &mut rng, &u, feat, &targets, case_id, Some(clock));
+                                    check_accumulator(r, &mut rng, &u, feat, &target, case_id);
+                                });
                             }
                         }
                         if r.want_sample() && c % 401 == 1 {
@@ -352,6 +405,7 @@ pub fn run(a: &Args) -> Report {
             .collect();
         hs.into_iter().map(|h| h.join().expect("thread")).collect()
     });
+    dht::verif::set_env(None);
     for p in parts {
         total.merge(p);
     }
